@@ -125,6 +125,8 @@ def str_value(rng, interp=True):
                            '%(split-level)d:%(xml)s', '%(bad-chars-sub)s%%%(toc-depth)s', 'a%%b%%'])
     if r < 0.4:
         return word(rng) + ' ' + word(rng)
+    if r < 0.5:         # a blank followed by # or ; is part of the value (configparser has no inline comments by default)
+        return rng.choice(['Issue #5 ; draft', 'a ;b', 'x # y', 'v1 ;', 'C# ; D', ': #$%%^&*!~`"\'=?/{}[]()|<>;\\,.'])
     return word(rng)
 
 
@@ -154,7 +156,7 @@ def file_value(rng, o):
     if c == 'CBool':
         return bool_word(rng, rng.random() < 0.5)
     if c == 'CMulti':
-        return ' '.join(word(rng) for _ in range(rng.randint(0, 3)))
+        return ' '.join(rng.choice([word(rng), word(rng), '#' + word(rng), ';' + word(rng), '#', ';']) for _ in range(rng.randint(0, 3))).strip()
     return ', '.join('%s%s=%s%s' % (rng.choice(['', ' ']), dkey(rng), rng.choice(['', ' ']), entry_value(rng, c)) for _ in range(rng.randint(1, 3)))
 
 
@@ -167,7 +169,7 @@ def entry_value(rng, cls):
         return int_value(rng)
     if 'EKFloat' in cls:
         return float_value(rng)
-    return word(rng)
+    return rng.choice([word(rng), word(rng), word(rng) + ' #' + word(rng), word(rng) + ' ; ' + word(rng)])
 
 
 def cmd_occurrences(rng, o, eqform=True, abbrev=None):
@@ -339,6 +341,100 @@ def gen_synthetic(rng):
     return c
 
 
+REFERRERS = [('general', 'theme', 'x-%(renderer)s'), ('document', 'title', '%(theme)s|%(split-level)s'), ('html5', 'theme-css', '%(kpsewhich)s.css'),
+             ('general', 'kpsewhich', '%(renderer)s/kp'), ('document', 'base-url', 'http://h/%(split-level)d/%(xml)s'), ('images', 'imager', '%(imager)s'),
+             ('files', 'filename', '%(title)s-$num'), ('html5', 'mathjax-url', '<%(base-url)s>%%'), ('images', 'compiler', '%(toc-depth)s:%(theme-css)s')]
+REFERRED = [('general', 'renderer', 'CStr'), ('files', 'split-level', 'CInt'), ('general', 'kpsewhich', 'CStr'), ('general', 'xml', 'CBool'),
+            ('general', 'theme', 'CStr'), ('document', 'title', 'CStr'), ('images', 'base-url', 'CStr'), ('document', 'toc-depth', 'CInt'),
+            ('html5', 'theme-css', 'CStr')]
+LIST_REFERRERS = [('html5', 'extra-css', ['%(theme)s.css', 'lvl%(split-level)d.css']), ('general', 'plugins', ['%(renderer)s', 'p'])]
+
+
+def gen_history(rng):
+    """the public API step by step: options that refer to other options are set, everything is read back, the options referred to are
+    changed by a later file / a command line / an assignment, everything is read back again (several rounds, several sections)"""
+    byk = {(o['sec'], o['key']): o for o in options()}
+    files = []
+    ops = []
+
+    def change(sec, key, value):
+        """one step that gives (sec, key) the value `value` (a string as written in a file / on the command line)"""
+        o = byk[(sec, key)]
+        how = rng.choice(['file', 'cmd', 'assign'])
+        if o['cls'] == 'CBool':
+            b = value
+            if how == 'cmd' and (b or o['disables']):
+                return [['main', ['doc.tex', (o['enables'] if b else o['disables'])[0]]]]
+            if how == 'assign':
+                return [['assign', sec, key, bool(b)]]
+            value = bool_word(rng, b)
+            how = 'file'
+        if how == 'file' or (how == 'cmd' and str(value).startswith('-') and o['cls'] == 'CStr'):
+            name = 'h%d.ini' % len(files)
+            files.append([name, dict(text=print_ini([(sec, [(key, value)])]))])
+            return [['read', name]] if rng.random() < 0.5 else [['main', ['-c', name, 'doc.tex']]]
+        if how == 'cmd':
+            return [['main', ['doc.tex', o['flags'][0], str(value)]]]
+        py = int(value) if o['cls'] == 'CInt' else float(value) if o['cls'] == 'CFloat' else value
+        return [['assign', sec, key, py]]
+
+    def new_value(cls):
+        if cls == 'CInt':
+            return rng.choice(['0', '1', '4', '7', '-1'])
+        if cls == 'CBool':
+            return rng.random() < 0.5
+        return rng.choice(['XHTML', 'Epub', 'v2', 'w x', 'q%%', 'z'])
+
+    if rng.random() < 0.3:
+        ops.append(['observe'])
+    for sec, key, tpl in rng.sample(REFERRERS, rng.randint(1, 4)):
+        ops += change(sec, key, tpl)
+    if rng.random() < 0.5:
+        sec, key, l = rng.choice(LIST_REFERRERS)
+        ops.append(['assign', sec, key, list(l)])
+    ops.append(['observe'])
+    for _ in range(rng.randint(1, 3)):
+        for sec, key, cls in rng.sample(REFERRED, rng.randint(1, 3)):
+            ops += change(sec, key, new_value(cls))
+        if rng.random() < 0.3:
+            noise = gen_layer(rng, density=0.03)
+            for name, f in noise['files']:
+                files.append(['n%d-%s' % (len(files), name), f])
+                ops.append(['read', files[-1][0]])
+        ops.append(['observe'])
+    return dict(kind='history', files=files, ops=ops)
+
+
+def gen_history_synthetic(rng):
+    tbl = gen_table(rng)
+    opts = options(tbl)
+    files, ops = [], [['observe']]
+    for _ in range(rng.randint(2, 5)):
+        o = rng.choice(opts)
+        c = o['cls']
+        how = rng.choice(['file', 'assign', 'cmd'])
+        if how == 'file' or 'CDict' in c:
+            name = 'h%d.ini' % len(files)
+            v = file_value(rng, o)
+            for a, b in [('%(renderer)s', '%(alpha)s'), ('%(split-level)', '%(level)'), ('%(kpsewhich)s', '%(name)s'), ('%(base-url)s', '%(up)s'), ('%(title)s', '%(beta)s')]:
+                v = v.replace(a, b)
+            files.append([name, dict(text=print_ini([(o['sec'], [(o['key'], v)])]))])
+            ops.append(['read', name])
+        elif how == 'assign':
+            v = {'CStr': lambda: rng.choice(['n1', '%(alpha)s-%(level)s', 'x%(name)sx', '%(theme)s', 'p%%']), 'CInt': lambda: rng.randint(-3, 9),
+                 'CFloat': lambda: rng.choice([0.5, 2.0, -1.25]), 'CBool': lambda: rng.random() < 0.5,
+                 'CMulti': lambda: rng.choice([[], ['%(alpha)s', 'b'], ['c']])}[c]()
+            ops.append(['assign', o['sec'], o['key'], v])
+        else:
+            occ = cmd_occurrences(rng, o, eqform=False)
+            if occ:
+                ops.append(['main', ['doc.tex'] + [t.replace('%(renderer)s', '%(alpha)s').replace('%(split-level)', '%(level)') for t in occ[0]]])
+        if rng.random() < 0.7:
+            ops.append(['observe'])
+    ops.append(['observe'])
+    return dict(kind='history', files=files, ops=ops, table=tbl)
+
+
 REPRESENTATIVES = [('general', 'theme'), ('files', 'split-level'), ('images', 'scale-factor'), ('general', 'xml'),
                    ('general', 'copy-theme-extras'), ('general', 'plugins'), ('counters', 'counters'), ('links', 'links'),
                    ('images', 'scales'), ('html5', 'use-mathjax'), ('document', 'base-url'), ('mathjax-macros', 'macros')]
@@ -461,6 +557,10 @@ def streams(rng, tier, boost):
         out.append(('layering', gen_layer(rng)))
     for _ in range((1200 if tier == 'quick' else 30000) * boost):
         out.append(('synthetic-table', gen_synthetic(rng)))
+    for _ in range((500 if tier == 'quick' else 12000) * boost):
+        out.append(('history', gen_history(rng)))
+    for _ in range((400 if tier == 'quick' else 8000) * boost):
+        out.append(('history-synthetic', gen_history_synthetic(rng)))
     for _ in range((700 if tier == 'quick' else 25000) * boost):
         out.append(('malformed', gen_malformed(rng)))
     for _ in range((1500 if tier == 'quick' else 40000) * boost):
@@ -484,7 +584,23 @@ def parse_ini(text):
     return [2, [[core.S(sec), [[core.S(k), core.S(v if v is not None else '')] for k, v in data.items(sec)]] for sec in data.sections()]]
 
 
+def wire_op(op):
+    if op[0] == 'observe':
+        return [0]
+    if op[0] == 'read':
+        return [1, core.S(op[1])]
+    if op[0] == 'main':
+        return [2, [core.S(t) for t in op[1]]]
+    return [3, core.S(op[1]), core.S(op[2]), wire_default(op[3])]
+
+
 def model_input(case):
+    if case['kind'] == 'history':
+        fs = [[core.S(name), parse_ini(f['text'])] for name, f in case['files']]
+        ops = [wire_op(op) for op in case['ops']]
+        if case.get('table') is not None:
+            return [6, wire_table(case['table']), fs, ops]
+        return [5, fs, ops]
     if case['kind'] != 'layer':
         return [{'shlex': 2, 'int': 3, 'float': 4}[case['kind']], core.S(case['s'])]
     fs = [[core.S(name), parse_ini(f['text'])] for name, f in case['files']]
@@ -521,6 +637,15 @@ def wire_table(tbl):
 
 
 def describe(case):
+    if case['kind'] == 'history':
+        s = 'history: ' + '; '.join({'observe': lambda o: 'read back every option', 'read': lambda o: 'config.read(%r)' % o[1],
+                                     'main': lambda o: 'main(%r)' % (o[1],), 'assign': lambda o: 'config[%r][%r] = %r' % (o[1], o[2], o[3])}[op[0]](op)
+                                    for op in case['ops'])
+        if case.get('table') is not None:
+            s = 'option table ' + repr(case['table']) + '\n' + s
+        for name, f in case['files']:
+            s += '\n--- %s ---\n%s' % (name, f['text'])
+        return s
     if case['kind'] != 'layer':
         return '%s(%r)' % (case['kind'], case['s'])
     s = 'plastex ' + ' '.join(repr(t) for t in case['argv'])
@@ -616,8 +741,63 @@ def crash_of(e):
     return [-2, k] if k else None
 
 
+def observe_config(config):
+    obs = []
+    for sec in config:
+        for key in config[sec].keys():
+            try:
+                obs.append([0, enc_value(config[sec][key])])
+            except Exception as e:
+                c = crash_of(e)
+                if c is None:
+                    raise
+                obs.append(c)
+    return [0, obs]
+
+
+def run_history(case):
+    import contextlib
+    import plasTeX.client as client
+    for f in os.listdir('.'):
+        os.unlink(f)
+    for name, f in case['files']:
+        with open(name, 'w', encoding='utf8') as fh:
+            fh.write(f['text'])
+    if case.get('table') is not None:
+        config = build_config(case['table'])
+    else:
+        config = _ORIG['defaultConfig']()
+        _ORIG['collect'](config)
+    client.run = lambda filename, cfg: None
+    client.defaultConfig = lambda: config          # main() on the configuration as it is now
+    client.collect_renderer_config = lambda cfg: None
+    out = []
+    sink = io.StringIO()
+    for op in case['ops']:
+        try:
+            with contextlib.redirect_stdout(sink), contextlib.redirect_stderr(sink):
+                if op[0] == 'observe':
+                    out.append(observe_config(config)[1])
+                elif op[0] == 'read':
+                    config.read(op[1])
+                elif op[0] == 'main':
+                    client.main(list(op[1]))
+                else:
+                    v = op[3]
+                    config[op[1]][op[2]] = list(v) if isinstance(v, list) else v
+        except (Exception, SystemExit) as e:
+            c = crash_of(e)
+            if c is None:
+                raise
+            out.append(c)
+            break
+    return [0, out]
+
+
 def run_impl(case):
     import contextlib
+    if case['kind'] == 'history':
+        return run_history(case)
     if case['kind'] == 'shlex':
         import shlex
         try:
@@ -703,6 +883,22 @@ def option_index(case):
 
 
 def judge(case, io, mo):
+    if case['kind'] == 'history':
+        if not (isinstance(io, list) and isinstance(mo, list) and io[:1] == [0] and mo[:1] == [0]):
+            return None if io == mo else dict(violation=False, key='C16:history:shape', expected=show(mo), what='implementation %s, Model %s' % (show(io), show(mo)))
+        for n, (a, b) in enumerate(zip(io[1], mo[1])):
+            if b == [-4]:
+                return None            # a step the Model does not cover: nothing after it is compared
+            wrap = lambda x: x if (x and isinstance(x[0], int)) else [0, x]     # an observation (list of per-option results) or an exception marker
+            v = judge(dict(kind='layer', table=case.get('table')), wrap(a), wrap(b))
+            if v is not None:
+                v['what'] = 'observation %d of the history: %s' % (n + 1, v['what'].replace('layering of defaults, files and command line gives',
+                                                                                               'the current values give'))
+                v['key'] = v['key'].replace('C16:', 'C16:history:')
+                return v
+        if len(io[1]) != len(mo[1]):
+            return dict(violation=True, key='C16:history:length', expected=None, what='the history stops at different steps: implementation %d observations, Model %d' % (len(io[1]), len(mo[1])))
+        return None
     if case['kind'] != 'layer':
         if mo == [-4]:
             return None
@@ -791,6 +987,8 @@ def sources_per_option(case):
 
 
 def nontrivial(case, io):
+    if case['kind'] == 'history':
+        return sum(1 for op in case['ops'] if op[0] == 'observe') >= 2 and any(op[0] != 'observe' for op in case['ops'])
     if case['kind'] != 'layer':
         return len(case['s']) >= 2
     if any(v >= 2 for v in sources_per_option(case).values()):
@@ -801,6 +999,12 @@ def nontrivial(case, io):
 
 
 def tags(case, io):
+    if case['kind'] == 'history':
+        t = ['history', 'history-read-backs=%d' % min(5, sum(1 for op in case['ops'] if op[0] == 'observe'))]
+        t += sorted({'history-step:' + op[0] for op in case['ops']})
+        if isinstance(io, list) and io[:1] == [0] and io[1] and io[1][-1][:1] == [-2]:
+            t.append('history-stops-with-exception')
+        return t
     if case['kind'] != 'layer':
         return ['unit:' + case['kind']]
     t = ['files=%d' % len(case['files'])]
@@ -816,6 +1020,16 @@ def tags(case, io):
 
 
 def shrink(case):
+    if case['kind'] == 'history':
+        ops = case['ops']
+        for i in range(len(ops)):
+            yield dict(case, ops=ops[:i] + ops[i + 1:])
+        for i, (name, f) in enumerate(case['files']):
+            lines = f['text'].split('\n')
+            for j in range(len(lines)):
+                if lines[j].strip() and not lines[j].startswith('['):
+                    yield dict(case, files=case['files'][:i] + [[name, dict(text='\n'.join(lines[:j] + lines[j + 1:]))]] + case['files'][i + 1:])
+        return
     if case['kind'] != 'layer':
         s = case['s']
         for i in range(len(s)):
